@@ -43,6 +43,7 @@ def main(argv):
     chk = Check(prop, tier)
     try:
         mod = importlib.import_module("sa.props.%s" % prop.lower())
+        _defer_rule_errors(chk)
         ix = get_index()
         st = ix.stats()
         print("[%s] analysing %s: %d modules, %d classes, %d functions parsed from the working tree" % (
@@ -65,12 +66,61 @@ def main(argv):
             return 0
         return chk.finish(seed)
     except AnalysisError as e:
-        print("ANALYSIS-ERROR property=%s: %s" % (prop, e))
-        return 2
+        return _finish_with_error(chk, seed, str(e))
     except Exception as e:      # noqa
         traceback.print_exc()
-        print("ANALYSIS-ERROR property=%s: internal error of the checker: %s: %s" % (prop, type(e).__name__, e))
+        return _finish_with_error(chk, seed, "internal error of the checker: %s: %s" % (type(e).__name__, e))
+
+
+def _finish_with_error(chk, seed, msg):
+    """No verdict from (part of) the analysis.  Violations that other rules have already established are still real:
+    they are reported (exit 1); otherwise exit 2."""
+    if not hasattr(chk, "floor_errors"):
+        chk.floor_errors = []
+    chk.floor_errors.append(msg)
+    try:
+        return chk.finish(seed)
+    except Exception as e:      # noqa
+        print("ANALYSIS-ERROR property=%s: %s" % (chk.prop, msg))
+        print("ANALYSIS-ERROR property=%s: while writing the report: %s: %s" % (chk.prop, type(e).__name__, e))
         return 2
+
+
+def _defer_rule_errors(chk0):
+    """Every rule function (sa.rules_*.check_*) runs to its own end: an ANALYSIS-ERROR of one rule is recorded and the
+    remaining rules still run, so that a change which makes one rule's anchor vanish cannot hide what another rule sees."""
+    import functools
+    from sa.index import AnalysisError
+    from sa.report import Check
+    for name, m in list(sys.modules.items()):
+        if not name.startswith("sa.rules_"):
+            continue
+        for attr, fn in list(vars(m).items()):
+            if not attr.startswith("check_") or not callable(fn) or getattr(fn, "_deferring", False) or getattr(fn, "__module__", None) != name:
+                continue
+
+            def make(fn):
+                @functools.wraps(fn)
+                def wrapper(*a, **k):
+                    chk = a[0] if a and isinstance(a[0], Check) else None
+                    if chk is None:
+                        return fn(*a, **k)
+                    try:
+                        return fn(*a, **k)
+                    except AnalysisError as e:
+                        msg = "%s: %s" % (fn.__name__, e)
+                    except RecursionError:
+                        raise
+                    except Exception as e:      # noqa
+                        traceback.print_exc()
+                        msg = "%s: internal error of the checker: %s: %s" % (fn.__name__, type(e).__name__, e)
+                    if not hasattr(chk, "floor_errors"):
+                        chk.floor_errors = []
+                    chk.floor_errors.append(msg)
+                    return None
+                wrapper._deferring = True
+                return wrapper
+            setattr(m, attr, make(fn))
 
 
 if __name__ == "__main__":
